@@ -11,6 +11,7 @@ from . import symex as sx
 
 NO_MODEL = object()
 LAST = [None]
+LAST_CALLEE = [None]
 
 
 def _sg(s):
@@ -72,6 +73,7 @@ def _is_int_ty(s):
 def try_model(ex, st, callee, args):
     c = _sg(callee)
     LAST[0] = c
+    LAST_CALLEE[0] = callee
     nm = ex.ctx.name
 
     # ---------------------------------------------------------------- panics
@@ -131,6 +133,49 @@ def try_model(ex, st, callee, args):
         raise sx.NotEncodable("integer method %s::%s" % (ty, meth))
     m = re.match(r"^core::num::<impl ([iu]\w+)>::(MAX|MIN)$", c)
 
+    # ---------------------------------------------------------------- Vec of bounded capacity (symex.VecVal)
+    m = re.match(r"^(?:alloc::vec::)?Vec::(len|is_empty)$", c)
+    if m and args and isinstance(ex.deref(st, args[0]), sx.VecVal):
+        v = ex.deref(st, args[0])
+        return sx.Int(v.n, "usize") if m.group(1) == "len" else sx.Bool(eq(v.n, 0))
+    if re.match(r"^<(?:alloc::vec::)?Vec<.*> as (?:core::ops::)?Index<usize>>::index$", c) and isinstance(ex.deref(st, args[0]), sx.VecVal):
+        v = ex.deref(st, args[0])
+        i = _int(ex, st, args[1]).t
+        _panic(ex, st, "index out of bounds (Vec)", not_(and_(le(0, i), lt(i, v.n))))
+        sel = v.items[-1]
+        for k in range(len(v.items) - 2, -1, -1):
+            sel = sx.merge(eq(i, k), v.items[k], sel) if not is_c(eq(i, k)) else (v.items[k] if eq(i, k) else sel)
+        return ex.temp_ref(st, sel)
+    if re.match(r"^<(?:alloc::vec::)?Vec<.*> as (?:core::iter::)?IntoIterator>::into_iter$", c) and isinstance(ex.deref(st, args[0]), sx.VecVal):
+        return ex.deref(st, args[0])
+    if re.match(r"^<(?:alloc::vec::)?(?:vec::)?IntoIter<.*> as (?:core::iter::)?Iterator>::next$", c) and isinstance(ex.deref(st, args[0]), sx.VecVal):
+        v = ex.deref(st, args[0])      # only the first `next` of a fresh iterator is modelled
+        return _opt(gt(v.n, 0), v.items[0])
+    if re.match(r"^<(?:alloc::vec::)?Vec<.*> as (?:core::convert::)?From<&\[.*; \d+\]>>::from$", c) and isinstance(ex.deref(st, args[0]), sx.Agg):
+        arr = ex.deref(st, args[0])
+        return sx.VecVal(arr.f, len(arr.f))
+    if re.match(r"^<&(?:alloc::vec::)?Vec<.*> as (?:core::iter::)?IntoIterator>::into_iter$", c) and isinstance(ex.deref(st, args[0]), sx.VecVal):
+        v = ex.deref(st, args[0])
+        return sx.SliceIter(v.items, v.n, 0)
+    if re.match(r"^<(?:core::slice::)?Iter<.*> as (?:core::iter::)?Iterator>::next$", c) and isinstance(ex.deref(st, args[0]), sx.SliceIter):
+        it = ex.deref(st, args[0])
+        if it.pos >= len(it.items):
+            return _opt(False, sx.UNIT)
+        some = lt(it.pos, it.n) if not isinstance(it.n, int) else it.pos < it.n
+        item = ex.temp_ref(st, it.items[it.pos])
+        ex.write_through(st, args[0], sx.SliceIter(it.items, it.n, it.pos + 1))
+        return _opt(some, item)
+    if re.match(r"^<(?:alloc::string::)?String as (?:core::ops::)?Deref>::deref$", c):
+        return sx.Opaque("str")
+    if re.match(r"^<(?:builtins::core::calendar::)?Calendar as (?:core::default::)?Default>::default$", c):
+        return sx.Opaque("calendar:iso")
+    # the process-wide provider: LazyLock<Mutex<FsTzdbProvider>> (lock acquisition modelled as succeeding; poisoning is C20)
+    if re.match(r"^<LazyLock<.*> as Deref>::deref$", c):
+        return sx.Opaque("provider-mutex")
+    if re.match(r"^(std::sync::)?Mutex::lock$", c):
+        return sx.Enum(0, {0: [sx.Opaque("provider-guard")]}, "Result")
+    if re.match(r"^<(std::sync::)?MutexGuard<.*> as Deref(Mut)?>::deref(_mut)?$", c):
+        return sx.Opaque("provider")
     # ---------------------------------------------------------------- trait calls
     m = re.match(r"^<(.+) as (.+)>::(\w+)$", c)
     if m:
@@ -184,7 +229,7 @@ def try_model(ex, st, callee, args):
         return sx.Bool(and_(le(lo.t, x.t), lt(x.t, hi.t)))
 
     # ---------------------------------------------------------------- crate error type (kind kept, message dropped)
-    m = re.match(r"^(?:error::)?TemporalError::(\w+)$", c)
+    m = re.match(r"^(?:error::)?TemporalError::((?:r#)?\w+)$", c)
     if m:
         meth = m.group(1)
         kinds = {"general": 0, "type": 1, "r#type": 1, "range": 2, "syntax": 3, "assert": 4, "abrupt_end": 3}
@@ -216,6 +261,10 @@ def try_model(ex, st, callee, args):
             total = add(total, mul(u_, v))
         lim = (1 << 53) * 10**9
         return sx.Bool(and_(not_(and_(pos, neg_)), small, lt(total, lim), gt(total, -lim)))
+    # the calendar is modelled as the ISO calendar (all date arithmetic in the crate is ISO-only: the non-ISO branches
+    # return "not yet implemented"); stated in the evidence of every job that reaches it
+    if re.search(r"(^|::)Calendar::is_iso$", c) and args and isinstance(ex.deref(st, args[0]), sx.Opaque):
+        return sx.Bool(True)
     if c in ("core::mem::drop", "drop", "core::hint::black_box"):
         return sx.UNIT
     if c in ("core::num::<impl u8>::is_ascii_digit",):
@@ -405,6 +454,8 @@ def _trait_call(ex, st, ty, tr, full_tr, meth, args, callee):
         other = mt.group(1).strip() if mt else None
         target = ty if tr == "From" else other
         if isinstance(a, sx.Int):
+            if target == "f64":
+                return sx.Flt(a.t)              # std only provides lossless int -> f64 From/Into (<= 32 bits)
             if target in INT_TYPES:
                 return sx.Int(a.t, target)      # std only provides lossless integer From/Into
             if target and target.startswith("NonZero<") or (target and "NonZero" in target):
@@ -481,6 +532,9 @@ def _trait_call(ex, st, ty, tr, full_tr, meth, args, callee):
         return sx.Bool(not_(dargs[0].t))
     if tr == "Clone" and meth == "clone":
         return dargs[0]
+    if tr == "PartialEq" and meth in ("eq", "ne") and len(dargs) == 2 and isinstance(dargs[0], sx.Flt) and isinstance(dargs[1], sx.Flt):
+        r = eq(dargs[0].t, dargs[1].t)
+        return sx.Bool(r if meth == "eq" else not_(r))
     if tr == "Default" and meth == "default":
         if ty in INT_TYPES:
             return sx.Int(0, ty)
@@ -552,6 +606,24 @@ def _option_method(ex, st, meth, args):
         if payload is None:
             raise sx.Diverge("unwrap of None")
         return payload
+    if meth in ("and_then", "map") and len(args) == 2 and "{closure@" in (LAST_CALLEE[0] or ""):
+        # closure executed from its own MIR body under the extra path condition `is_some`
+        if payload is None or (is_c(is_some) and not is_some):
+            return _none()
+        n = len(st.pc)
+        if not is_c(is_some):
+            st.pc.append(is_some)
+        inner = ex.call_closure(st, LAST_CALLEE[0], args[1], [payload])
+        if not is_c(is_some):
+            st.pc[n:] = [implies(is_some, x) for x in st.pc[n + 1:]]
+        if meth == "map":
+            return _opt(is_some, inner)
+        if not isinstance(inner, sx.Enum):
+            raise sx.NotEncodable("Option::and_then closure result %r" % (inner,))
+        v = {0: []}
+        if 1 in inner.v:
+            v[1] = inner.v[1]
+        return sx.Enum(ite(and_(is_some, eq(inner.d, 1)), 1, 0), v, "Option")
     if meth == "unwrap_or":
         d = args[1]
         if payload is None:
@@ -560,7 +632,35 @@ def _option_method(ex, st, meth, args):
     if meth == "unwrap_or_default":
         if isinstance(payload, sx.Int):
             return sx.Int(ite(is_some, payload.t, 0), payload.ty)
+        mt = re.match(r"^(?:core::option::)?Option::<(.+)>::unwrap_or_default$", (LAST_CALLEE[0] or "").strip())
+        if mt:
+            dflt = ex.call_path(st, "<%s as Default>::default" % mt.group(1), [])
+            if payload is None or (is_c(is_some) and not is_some):
+                return dflt
+            return payload if (is_c(is_some) and is_some) else sx.merge(is_some, payload, dflt)
         raise sx.NotEncodable("unwrap_or_default")
+    if meth == "map" and len(args) == 2 and re.search(r"\{(?!closure@)[\w:<>]+\}>$", (LAST_CALLEE[0] or "").strip()):
+        # Option::map(function item): the named function applied to the payload under the path condition `is_some`
+        path = re.search(r"\{((?!closure@)[\w:<>]+)\}>$", LAST_CALLEE[0].strip()).group(1)
+        if payload is None or (is_c(is_some) and not is_some):
+            return _none()
+        n = len(st.pc)
+        if not is_c(is_some):
+            st.pc.append(is_some)
+        inner = ex.call_path(st, path, [payload])
+        if not is_c(is_some):
+            st.pc[n:] = [implies(is_some, x) for x in st.pc[n + 1:]]
+        return _opt(is_some, inner)
+    if meth == "transpose":
+        # Option<Result<T, E>> -> Result<Option<T>, E>
+        if payload is None or (is_c(is_some) and not is_some):
+            return sx.Enum(0, {0: [_none()]}, "Result")
+        if not isinstance(payload, sx.Enum):
+            raise sx.NotEncodable("Option::transpose of %r" % (payload,))
+        v = {0: [sx.Enum(ite(is_some, 1, 0), {0: [], 1: list(payload.v.get(0, [sx.UNIT]))}, "Option")]}
+        if 1 in payload.v:
+            v[1] = payload.v[1]
+        return sx.Enum(ite(is_some, payload.d, 0), v, "Result")
     if meth == "ok_or":
         e = args[1]
         v = {1: [e]}
@@ -595,6 +695,12 @@ def _result_method(ex, st, meth, args):
         if 0 in r.v:
             v[1] = [r.v[0][0]]
         return sx.Enum(ite(is_ok, 1, 0), v, "Option")
+    if meth == "map" and len(args) == 2:
+        v = dict(r.v)
+        if 0 in v:
+            # closure applied to the Ok payload (executed from its own MIR body)
+            v[0] = [ex.call_closure(st, LAST_CALLEE[0], args[1], [r.v[0][0]])]
+        return sx.Enum(r.d, v, "Result")
     if meth in ("map_err",):
         v = dict(r.v)
         if 1 in v:
